@@ -151,14 +151,27 @@ def explore(ck: Check, max_w: int, n_random: int) -> None:
             bb[rng.randrange(w)] = rng.randrange(256)
             buf = bytes(bb)
         text = f"       01  REC.\n           05  LEAD PIC X(2).\n           05  FLD PIC {pic} USAGE {usage}.\n           05  TAIL PIC X.\n"
-        inp = {"copybook": text, "usage": usage, "picture": pic, "buffer": buf.hex(), "read": "navigator"}
-        ck.case(("nav", usage, pic, buf), nontrivial=True, feature=f"{kind}/through-navigator")
+        after = b""
+        if rng.random() < 0.4:
+            # the item is one alternative of a REDEFINES whose other alternative is wider; the bytes after the item are valid digits
+            # of the same encoding (they belong to the wider alternative only)
+            extra = rng.randint(1, 6)
+            after = bytes((rng.randrange(10) * 16 + rng.randrange(10)) if kind == "packed" else (0xF0 + rng.randrange(10)) for _ in range(extra))
+            if rng.random() < 0.5:
+                text = (f"       01  REC.\n           05  LEAD PIC X(2).\n           05  WIDE PIC X({w + extra}).\n"
+                        f"           05  FLD REDEFINES WIDE PIC {pic} USAGE {usage}.\n           05  TAIL PIC X.\n")
+            else:
+                text = (f"       01  REC.\n           05  LEAD PIC X(2).\n           05  WIDE.\n               10  W1 PIC X({w}).\n               10  W2 PIC X({extra}).\n"
+                        f"           05  ALT REDEFINES WIDE.\n               10  FLD PIC {pic} USAGE {usage}.\n           05  TAIL PIC X.\n")
+        inp = {"copybook": text, "usage": usage, "picture": pic, "buffer": buf.hex(), "read": "navigator", "bytes_after_the_item": after.hex()}
+        ck.case(("nav", usage, pic, buf, text), nontrivial=True, feature=f"{kind}/through-navigator" + ("/redefines-wider" if after else ""))
         ck.oracle_evaluations += 1
         direct = impl_unpack(usage, pic, buf)
         try:
             schema = SchemaMaker.from_json(next(iter(schema_iter(io.StringIO(text)))))
             unp = EBCDIC()
-            v = unp.nav(schema, b"\xc1\xc2" + buf + b"\xe9").name("FLD").value()
+            nav0 = unp.nav(schema, b"\xc1\xc2" + buf + after + b"\xe9")
+            v = (nav0.name("ALT").name("FLD") if "ALT REDEFINES" in text else nav0.name("FLD")).value()
             out = show_val(v)
         except BaseException as ex:  # noqa: BLE001
             from harness.decode_common import enum
